@@ -617,6 +617,7 @@ func c14Consts(r *core.Run, p *core.Program) {
 		}
 		r.Check(ok, rule, "bip39/pbkdf2", p.Pos(ns.Pos()), "PBKDF2-HMAC-SHA512, 2048 rounds, salt \"mnemonic\"+passphrase, 64 bytes", "the seed is not PBKDF2-HMAC-SHA512(mnemonic, \"mnemonic\"+passphrase, 2048, 64)")
 	}
+	c14WordKnown(r, p, rule)
 	guardOb(r, p, rule, "bip39/checksum", "a mnemonic whose checksum bits do not match is refused", an.GuardSpec{Fn: p.Func("lib/others/bip39.EntropyFromMnemonic"), Fail: an.FailKind{Result: 1, Kind: "nonnil"}, Match: an.MatchCmpConst(0, token.NEQ, "call:(*math/big.Int).Cmp")})
 	// scrypt call site
 	if mw := p.Func("wallet.make_wallet"); mw != nil {
@@ -818,4 +819,133 @@ func c14Radix(r *core.Run, p *core.Program) {
 	}
 	sort.Strings(bad)
 	r.Check(len(bad) == 0 && n >= 5 && okPath, rule, "decimal-numbers", "-", fmt.Sprintf("%d number parses in the wallet, all with an explicit base; path elements base 10, 32 bits", n), strings.Join(bad, "; ")+map[bool]string{true: "", false: " the derivation path elements are not parsed as 32-bit decimal numbers"}[okPath])
+}
+
+// c14WordKnown: a word's index read from the reverse word map is meaningful only for a word that is in the
+// list (an unknown word reads as index 0, the word "abandon").  Every read of the map in the bip39 package:
+// with the found flag - each use of the index is at a point where the flag is known to be true, or hands
+// index and flag out together; without the flag - the read is made only after the same sentence was accepted
+// by the validating function, whose error result is the decoder's.
+func c14WordKnown(r *core.Run, p *core.Program, rule string) {
+	n := 0
+	for _, fn := range p.ModuleFuncs() {
+		if fn.Pkg == nil || !strings.HasSuffix(fn.Pkg.Pkg.Path(), "lib/others/bip39") {
+			continue
+		}
+		an.Instrs(fn, func(i ssa.Instruction) {
+			lk, ok := i.(*ssa.Lookup)
+			if !ok || !strings.HasSuffix(an.Expr(lk.X), "bip39.wordMap") {
+				return
+			}
+			n++
+			key := fmt.Sprintf("bip39/word-known/%s", core.FuncName(fn))
+			pos := p.Pos(lk.Pos())
+			if !lk.CommaOk {
+				okDom := false
+				for _, dc := range an.DomConds(lk.Block()) {
+					x, y, rel, ok := dc.Cmp()
+					if !ok || rel != token.EQL {
+						continue
+					}
+					if c, isC := y.(*ssa.Const); !isC || c.Value != nil {
+						continue
+					}
+					if ex, isE := x.(*ssa.Extract); isE {
+						x = ex.Tuple
+					}
+					c, isCall := x.(*ssa.Call)
+					if !isCall || len(c.Call.Args) < 1 || len(fn.Params) < 1 || c.Call.Args[0] != ssa.Value(fn.Params[0]) {
+						continue
+					}
+					switch an.CallName(c) {
+					case "lib/others/bip39.EntropyFromMnemonic":
+						okDom = true
+					case "lib/others/bip39.IsMnemonicValid":
+						okDom = c14ReturnsDecoderError(p)
+					}
+				}
+				r.Check(okDom, rule, key, pos, "read after the sentence was validated", "a word's index is read from the word map without the found flag, and not after the sentence was accepted by the validating decoder: an unknown word reads as index 0")
+				return
+			}
+			var idx, found *ssa.Extract
+			for _, ref := range *lk.Referrers() {
+				if ex, ok := ref.(*ssa.Extract); ok {
+					if ex.Index == 0 {
+						idx = ex
+					} else {
+						found = ex
+					}
+				}
+			}
+			if idx == nil {
+				r.OK(rule, key, pos, "only the found flag is used")
+				return
+			}
+			if found == nil {
+				r.Fail(rule, key, pos, "the found flag of the word lookup is ignored: an unknown word reads as index 0")
+				return
+			}
+			bad := ""
+			fe := an.Expr(found)
+			for _, ref := range *idx.Referrers() {
+				if ret, isRet := ref.(*ssa.Return); isRet {
+					both := false
+					for _, v := range ret.Results {
+						if v == ssa.Value(found) {
+							both = true
+						}
+					}
+					if both {
+						continue
+					}
+				}
+				blk := ref.Block()
+				conds := an.DomConds(blk)
+				if ph, isPhi := ref.(*ssa.Phi); isPhi {
+					// the value flows into a merge: judge the edge it arrives on
+					conds = nil
+					for k, e := range ph.Edges {
+						if e == ssa.Value(idx) {
+							conds = append(conds, an.EdgeConds(blk.Preds[k], blk)...)
+						}
+					}
+				}
+				if !an.HasCond(conds, fe, true) {
+					bad = "the index is used at " + p.Pos(an.InstrPos(ref)) + " where the word is not known to be in the list"
+				}
+			}
+			r.Check(bad == "", rule, key, pos, "the index is used only where the word was found", bad+": an unknown word reads as index 0 (\"abandon\")")
+		})
+	}
+	r.Check(n >= 3, rule, "bip39/word-known/reads", "-", fmt.Sprintf("%d reads of the reverse word map", n), fmt.Sprintf("only %d reads of the reverse word map found (expected at least 3)", n))
+}
+
+// c14ReturnsDecoderError: IsMnemonicValid returns the error of EntropyFromMnemonic on its own argument.
+func c14ReturnsDecoderError(p *core.Program) bool {
+	fn := p.Func("lib/others/bip39.IsMnemonicValid")
+	if fn == nil || len(fn.Params) != 1 {
+		return false
+	}
+	ok, n := true, 0
+	an.Instrs(fn, func(i ssa.Instruction) {
+		ret, isRet := i.(*ssa.Return)
+		if !isRet {
+			return
+		}
+		n++
+		if len(ret.Results) != 1 {
+			ok = false
+			return
+		}
+		ex, isE := ret.Results[0].(*ssa.Extract)
+		if !isE || ex.Index != 1 {
+			ok = false
+			return
+		}
+		c, isC := ex.Tuple.(*ssa.Call)
+		if !isC || an.CallName(c) != "lib/others/bip39.EntropyFromMnemonic" || c.Call.Args[0] != ssa.Value(fn.Params[0]) {
+			ok = false
+		}
+	})
+	return ok && n > 0
 }
